@@ -20,6 +20,7 @@ import (
 	"strconv"
 	"strings"
 	"sync"
+	"sync/atomic"
 	"syscall"
 	"time"
 )
@@ -545,6 +546,8 @@ func oneLine(s string, max int) string {
 	return s
 }
 
+var hangEstablished atomic.Bool
+
 func runWorker(c *Check, tier string, seed int64, w int, logdir string, jobs <-chan int, results chan<- Result, timeout time.Duration) {
 	type proc struct {
 		cmd    *exec.Cmd
@@ -660,6 +663,11 @@ func runWorker(c *Check, tier string, seed int64, w int, logdir string, jobs <-c
 		}
 	}
 	for idx := range jobs {
+		if hangEstablished.Load() {
+			// one confirmed hang decides the run; the remaining cases are not worth 3 timeouts each
+			results <- Result{Case: idx, Verdict: Inconclusive, Detail: "not run: a hang had already been established in this run"}
+			continue
+		}
 		r, timedOut := attempt(idx, false)
 		if timedOut && c.HangTries > 1 {
 			hung := 1
@@ -674,6 +682,7 @@ func runWorker(c *Check, tier string, seed int64, w int, logdir string, jobs <-c
 				r = r2
 			}
 			if hung == c.HangTries {
+				hangEstablished.Store(true)
 				r = Result{Case: idx, Verdict: Violated, Detail: fmt.Sprintf("hang: the case did not finish within %v in %d of %d fresh worker processes; goroutine dump of the last attempt:\n%s", timeout, hung, c.HangTries, r.Detail)}
 			}
 		}
